@@ -217,6 +217,28 @@ theorem eval_mono (c : Cfg) : ∀ n, Mono (eval c n) (eval c (n + 1)) := by
           rw [evalArgs_mono ih _ _ _ _ hargs]; simp only
           exact applyFn_mono ih he
       · cases he
+    | durLit s => rw [eval] at he ⊢; exact he
+    | adjust1 e =>
+      rw [eval] at he ⊢
+      split at he
+      · cases he
+      · rename_i ρ1 h1 ha; rw [ih _ _ _ _ ha]; exact he
+      · rename_i x ρ1 h1 ha; rw [ih _ _ _ _ ha]; exact he
+      · cases he
+    | adjust2 e z =>
+      rw [eval] at he ⊢
+      split at he
+      · cases he
+      · rename_i v ρ1 h1 ha
+        rw [ih _ _ _ _ ha]; simp only
+        split at he
+        · cases he
+        · rename_i hlen
+          rw [if_neg hlen]
+          split at he
+          · cases he
+          · rename_i vz ρ2 h2 hz
+            rw [ih _ _ _ _ hz]; exact he
 
 /-- a successful evaluation at depth bound `n` gives the same answer at every bound `m ≥ n` -/
 theorem eval_fuel_le (c : Cfg) {n m : Nat} (hle : n ≤ m) : Mono (eval c n) (eval c m) := by
